@@ -97,7 +97,16 @@ def report(v, work, pid, trace, res, classify=None, others=None):
 
 def replay_file(pid, path, work):
     """./check Cxx --replay path : validate one recorded trace segment again."""
-    res = validate(work, os.path.abspath(path), "replay")
+    mode = ""
+    try:
+        with open(path) as fh:
+            mode = json.loads(fh.readline()).get("mode", "")
+    except Exception:
+        pass
+    if mode == "hybrid":
+        res = validate(work, os.path.abspath(path), "replay", module="HybridTrace", cfg="HybridTrace.cfg")
+    else:
+        res = validate(work, os.path.abspath(path), "replay")
     bad = [x for x in res["viol"] if x[0] == pid]
     for x in bad:
         print("VIOLATION property=%s replay=%s" % (pid, path))
